@@ -566,7 +566,26 @@ fn name_shapes() -> Vec<String> {
 
 fn replay(case: &Value, st: &mut Stats) {
     if !case["spec_case"].is_null() {
-        crate::diag!("(spec cases are small: re-run the check itself to reproduce this one)");
+        let spec = Spec::from_json(&case["spec_case"]);
+        let what = case["what"].as_str().unwrap_or("replay").to_string();
+        let base = crate::foreign::scratch_root().join(format!("zipmc-{}-c07r", std::process::id()));
+        let _ = std::fs::create_dir_all(&base);
+        if what.contains("unsafe-name") {
+            check_spec_case(&spec, None, case["stream"].as_bool().unwrap_or(false), &base, 0, st, 0, &what);
+        } else {
+            // the expected tree of a CP437-named one-entry archive
+            let mut tree: BTreeMap<PathBuf, (bool, Vec<u8>)> = BTreeMap::new();
+            for e in &spec.entries {
+                let dec = crate::reference::cp437::decode(&e.name);
+                let comps: Vec<&str> = dec.split('/').collect();
+                for i in 1..comps.len() {
+                    tree.insert(PathBuf::from(comps[..i].join("/")), (true, vec![]));
+                }
+                tree.insert(PathBuf::from(&dec), (false, e.content.clone()));
+            }
+            check_spec_case(&spec, Some(&tree), case["stream"].as_bool().unwrap_or(false), &base, 0, st, 0, &what);
+        }
+        let _ = std::fs::remove_dir_all(&base);
         return;
     }
     if let Some(sp) = case["split"].as_array() {
